@@ -827,6 +827,42 @@ class Fallback(Harness):
         yield 'all-closed-at-exit', obs['unclosed'] == 0
 
 
+class OptionsDoNotEnableDos(Harness):
+    """real process_commandline for every combination of the ordinary options (symbolic flags, level, port, timeout, threads): unless --dheat / --conn-rate-test /
+    --gex-test themselves are given, the resulting configuration has none of these features switched on."""
+    prop, ob = PROP, 'O3'
+    width = 64
+    name = 'options-do-not-enable-dos-features'
+
+    def inputs(self):
+        return {'b': {k: zx.fresh_bool(k) for k in ('verbose', 'ssh1', 'ssh2', 'ipv4', 'skip_rate_test')},
+                'json': zx.fresh_int('json', 0, 2), 'level': zx.fresh_int('level', 0, 2)}
+
+    def run(self, M, inp):
+        from props.c18 import StubArgparse
+        if zx.active():
+            zx.cur().stdout = []
+        cz = lambda v: v if isinstance(v, int) else zx.cur().concretize(v.e)
+        vals = {k: bool(v) for k, v in inp['b'].items()}
+        vals.update({'host': 'target', 'json': cz(inp['json']), 'level': ['info', 'warn', 'fail'][cz(inp['level'])], 'oport': 2222, 'timeout': 7, 'threads': 4})
+        vals.update({'batch': True, 'no_colors': True, 'debug': False, 'ipv6': True})
+        args = ['target'] + (['-4'] if vals['ipv4'] else []) + ['-6']
+        out = M.outputbuffer.OutputBuffer()
+        import io, contextlib
+        with AE.patched(M.ssh_audit, argparse=StubArgparse(vals)), contextlib.redirect_stdout(io.StringIO()):
+            r = guarded(M.ssh_audit.process_commandline, out, args)
+        if isinstance(r, Exc):
+            return {'exc': r}
+        return {'dheat': r.dheat, 'rate': r.conn_rate_test_enabled, 'gex': r.gex_test, 'skip': r.skip_rate_test, 'want_skip': vals['skip_rate_test']}
+
+    def check(self, inp, obs):
+        if 'exc' in obs:
+            yield 'no-exception', False
+            return
+        yield 'dos-and-flood-features-off', obs['dheat'] is None and obs['rate'] is False and obs['gex'] == ''
+        yield 'skip-rate-test-as-given', obs['skip'] == obs['want_skip']
+
+
 def _worker_keeps():
     from props.c07 import WorkerConfig
 
@@ -869,6 +905,7 @@ def tasks(tier):
             T.append(RateStep(n, k))
     T.append(rate_init_glue)
     T.append(_worker_keeps())
+    T.append(OptionsDoNotEnableDos())
     return T
 
 
@@ -883,6 +920,8 @@ def harness_by_name(name, params):
         return GexPhase(p['algs'], p['openssh'])
     if k == 'worker':
         return _worker_keeps()
+    if k == 'options':
+        return OptionsDoNotEnableDos()
     if k == 'rateopenstep':
         return RateOpenStep(p['n'])
     if k == 'ratestep':
